@@ -135,6 +135,10 @@ package internal
 //@   assert call Unlock#1: disjoint(p.posts[0:cap(p.posts)], posts[0:cap(posts)]) && p.spare == nil
 //@   // exactly once, in posting order: iteration i runs the i-th handler of the entry queue
 //@   assert call handler: handler == old(p.posts[i]) && handler != nil
+//@   // a posted handler stops counting as pending once it has run: one less per handler, whatever
+//@   // the handler itself posted or started
+//@   remember after call handler: ranAt := p.pending
+//@   loop 2 step [count] p.pending == ranAt - 1
 
 // Rely of Poll on the I/O handlers it dispatches (library reactors that end in user
 // callbacks): on return the poller is consistent and the slot of the batch entry being
@@ -154,6 +158,9 @@ package internal
 //@   assume def slot: slot != nil && (armed(slot, PollerReadEvent) ==> slot.Handlers[0] != nil) &&
 //@          (armed(slot, PollerWriteEvent) ==> slot.Handlers[1] != nil)
 //@   loop 1 invariant pInv(p) && 0 <= i && n <= len(p.events)
+//@   // every entry the kernel returned is looked at, in order: none skipped, none twice
+//@   loop 1 starts i == 0
+//@   loop 1 step i == i$head + 1
 //@   // readable, hang-up or error on a descriptor with a read armed completes the read;
 //@   // likewise for writes: no armed operation is left behind when the peer goes away
 //@   assert at "PollerReadEvent == PollerReadEvent": (event.Mask & 25 != 0 && armed(slot, PollerReadEvent)) ==>
